@@ -485,6 +485,8 @@ impl Analyzable for Expression
 				location,
 			} =>
 			{
+				// The members of a literal are not arguments themselves.
+				analyzer.is_immediate_function_argument = false;
 				let members = members
 					.into_iter()
 					.map(|member| {
